@@ -17,6 +17,12 @@ def install(v):
     C["C14"] = v.chk_lib(per_shard=3000)
     C["C15"] = v.chk_lib(per_shard=600)
 
+    C["C17"] = v.chk_lib(per_shard=500)
+    C["C16"] = v.chk_lib(per_shard=600)
+    C["C08"] = v.chk_lib(per_shard=400)
+    C["C12"] = v.chk_lib(per_shard=300)
+    C["C10"] = v.chk_lib(per_shard=1200)
+
     common = (" Every event is a distinct scenario (distinct abstract key, seeded); an event is non-trivial "
               "(decisive) when the specification demands one definite outcome for it (classes value / error / "
               "accept / refuse), i.e. it lies inside the property's domain and outside the regions the property "
